@@ -116,6 +116,10 @@ Sound(s) ==
 (*   stream   : the first reply decides: its ID differs => ErrId              *)
 (*   datagram : replies with other IDs are skipped until the matching one or  *)
 (*              the deadline                                                  *)
+(* "the deadline": ONE instant per exchange, fixed by the time the request   *)
+(* has been written.  Replies that are skipped do not buy more time: after   *)
+(* the write the read deadline in force may be moved earlier, never later.   *)
+MaxDeadlineExtensions == 0
 IdInit == [pos |-> 0, res |-> "pending", idx |-> 0]
 IdCanRecv(st, inbox, dl) == st.res = "pending" /\ st.pos < Min(dl, Len(inbox))
 IdRecv(st, transport, inbox, mine) ==
